@@ -21,7 +21,11 @@ pub struct GenReader {
 }
 impl Read for GenReader {
     fn read(&mut self, buf: &mut [u8]) -> io::Result<usize> {
-        let n = (buf.len() as u64).min(self.left) as usize;
+        let mut n = (buf.len() as u64).min(self.left) as usize;
+        if self.x % 2 == 1 && n > 1 {
+            // every other run comes from a pipe-like source: reads end anywhere (never on a "nice" size)
+            n = n.min(1 + (self.left % 8191) as usize).min(7777);
+        }
         for b in buf[..n].iter_mut() {
             self.x = self.x.wrapping_mul(6364136223846793005).wrapping_add(1442695040888963407);
             let r = (self.x >> 33) as u32;
